@@ -476,3 +476,42 @@ pub fn show(f: &F) -> String {
         }
     })
 }
+
+/// A hand-written SMT-LIB2 problem (used for the pure integer obligations, e.g. "nine base-128 digits
+/// cannot exceed 2^63-1"): expected `unsat`.
+pub fn raw_unsat(name: &str, key: &str, body: &str) -> bool {
+    let to = timeout_ms();
+    let script = format!("(reset)\n(set-option :timeout {})\n{}\n(check-sat)\n", to, body);
+    let t0 = Instant::now();
+    let lines = ctx(|c| c.solvers.main.run(&script)).unwrap_or_else(|e| vec![format!("(error \"{}\")", e)]);
+    let ms = t0.elapsed().as_secs_f64() * 1000.0;
+    let ans = lines.first().cloned().unwrap_or_default();
+    let err = lines.iter().any(|l| l.starts_with("(error"));
+    let verdict = if err {
+        "inconclusive"
+    } else if ans == "unsat" {
+        "held"
+    } else if ans == "sat" {
+        "violated"
+    } else {
+        "inconclusive"
+    };
+    ctx(|c| {
+        c.solver_ms += ms;
+        if !c.quiet {
+            eprintln!("  [{}] RAW     {:<12} {:>8.1} ms  {:>7} B  {}", c.prop, verdict, ms, script.len(), name);
+        }
+        c.obligations.push(ObRecord { name: name.into(), kind: "VALID", verdict: verdict.into(), answer: ans.clone(), ms, bytes: script.len(), nvars: 0, nasserts: 0, cross: vec![] });
+    });
+    match verdict {
+        "held" => true,
+        "violated" => {
+            finding(key, &format!("integer obligation '{}' has a counterexample", name), None, json!({"kind":"model"}));
+            false
+        }
+        _ => {
+            inconclusive(&format!("{}: solver answered '{}'", name, lines.join(" ")));
+            false
+        }
+    }
+}
